@@ -114,3 +114,25 @@ Proof.
     + destruct K1 as [[K1 Er]|K1]; [|congruence]. assert (d = c') by congruence. subst d. rewrite Er. eauto.
     + rewrite (K2 _ Hne) in H. eauto.
 Qed.
+
+Lemma chq_ok_same_flags P P' q :
+  chq_ok P q ->
+  (forall k d, lookup k P = Some (Connected d) ->
+     exists d', lookup k P' = Some (Connected d') /\ remote d' = remote d /\ tx_dropped d' = tx_dropped d /\ rx_dropped d' = rx_dropped d) ->
+  (forall k d', lookup k P' = Some (Connected d') -> exists d, lookup k P = Some (Connected d) /\ remote d = remote d') ->
+  chq_ok P' q.
+Proof.
+  intros [C1 C2 C3] H1 H2. constructor.
+  - intros y Hy. destruct (C1 y Hy) as (x0 & c0 & P1 & P2 & P3). destruct (H1 _ _ P1) as (d' & D1 & D2 & D3 & D4).
+    exists x0, d'. repeat split; congruence.
+  - intros y Hy. destruct (C2 y Hy) as (x0 & c0 & P1 & P2 & P3). destruct (H1 _ _ P1) as (d' & D1 & D2 & D3 & D4).
+    exists x0, d'. repeat split; congruence.
+  - intros x0 d' H. destruct (H2 _ _ H) as (d & D1 & D2). rewrite <- D2. eauto.
+Qed.
+
+Lemma chq_ok_same_keys P P' q :
+  chq_ok P q ->
+  (forall k d, lookup k P = Some (Connected d) -> lookup k P' = Some (Connected d)) ->
+  (forall k d, lookup k P' = Some (Connected d) -> lookup k P = Some (Connected d)) ->
+  chq_ok P' q.
+Proof. intros H H1 H2. eapply chq_ok_same_flags; [exact H| |]; intros k d A; exists d; auto. Qed.
